@@ -9,7 +9,9 @@ Implementation under test (real code, objects built without __init__):
   PMGRLaunchingComponent._prepare_pilot (set up as tests/unit_tests/test_launcher does), on a real
   rp.PilotDescription;
   PMGRLaunchingComponent._start_pilot_bulk on bulks of several pilots (real get_resource_config once per bulk,
-  the same rcfg object for every pilot, %-expansion; fake job launcher, _stage_in / tar / tempfile stubbed).
+  the same rcfg object for every pilot, %-expansion, real _prepare_pilot writing the agent configs, real
+  _stage_in with the real local StagingHelper into sandboxes below a scratch root, real tarball; a recording
+  job launcher reads, per pilot, the agent_0.cfg that arrived in its sandbox).
 """
 import glob
 import json
@@ -80,7 +82,8 @@ class C17(Prop):
     header = ('From RP Require Import Configs.Model Gen.Configs Configs.Oracle.\n'
               'Open Scope string_scope.\nOpen Scope Z_scope.')
     clauses = ['config_verifies', 'endpoints_defined', 'rm_exists', 'launch_methods_exist', 'scheduler_exists', 'executor_exists',
-               'agent_config_exists', 'valid_request_sized', 'min_nodes', 'job_counts', 'agent_told_same']
+               'agent_config_exists', 'valid_request_sized', 'min_nodes', 'job_counts', 'agent_told_same',
+               'staged_cfg_is_own', 'agent_told_what_job_requests']
     corr_name = ('Configs.Model(resolve/launch/factories) vs Session.get_resource_config, ResourceManager/'
                  'LaunchMethod/AgentSchedulingComponent/AgentExecutingComponent factories and '
                  'PMGRLaunchingComponent._prepare_pilot')
@@ -89,9 +92,10 @@ class C17(Prop):
             'table key and on misspelt/empty names; then for EVERY shipped configuration x schema generated pilot '
             'requests (nodes | cores/GPUs around multiples of the node size, backup 0..3, $RADICAL_SMT unset/1/2/4, '
             'mandatory arguments present/absent, and a malformed share: zero/negative sizes, nodes+cores, backup '
-            'without nodes, SMT 0); for EVERY shipped configuration x schema a submission bulk of 2-4 pilots through '
-            'the real _start_pilot_bulk (one resource config object shared by the pilots), every pilot checked against '
-            'the per-pilot clauses; non-trivial = a shipped combination that is resolved, or a sizing run that '
+            'without nodes, SMT 0); for EVERY shipped configuration x schema a submission bulk of 1-4 pilots through '
+            'the real _start_pilot_bulk (1-4 pilots, one resource config object shared by the pilots, agent configs '
+            'really written and staged into per-pilot sandboxes after the prepare loop), every pilot and the '
+            'agent_0.cfg found in its sandbox checked against the per-pilot clauses; non-trivial = a shipped combination that is resolved, or a sizing run that '
             'reaches the arithmetic (returns figures or trips an assertion), or a bulk of >= 2 launched pilots')
     trusted = [
         'translator translators/configs.py (JSON / ast -> Gen/Configs.v; fail closed)',
@@ -103,7 +107,7 @@ class C17(Prop):
         'float arithmetic: requested / avail_per_node followed by math.ceil equals exact ceiling division for '
         'magnitudes below 2^52 (model uses Z)',
         'driven but not modelled: string expansion of the resource config in _start_pilot_bulk; not modelled: '
-        'tarball and staging of _start_pilot_bulk (stubbed), sandboxes, bootstrapper '
+        'sandbox layout, bootstrapper '
         'arguments, staging directives, the batch system adaptor that consumes jd_dict, the concrete classes\' '
         'constructors; user configuration directories ($RADICAL_CONFIG_USER_DIR is pointed at an empty directory)',
     ]
@@ -144,7 +148,7 @@ class C17(Prop):
         nb = 1 if tier == 'quick' else 8
         for site, r, s, c in combos:
             for b in range(nb):
-                qs = [q for q in self._requests(rng, c, rng.choice([2, 3, 3, 4]), malformed=(b % 4 == 3))]
+                qs = [q for q in self._requests(rng, c, rng.choice([1, 2, 2, 3, 3, 4]), malformed=(b % 4 == 3))]
                 smt = rng.choice([None, None, None, 2, 4]) if b else None
                 proj = rng.random() < 0.95
                 yield {'kind': 'bulk', 'site': site, 'res': r, 'schema': s, 'smt': smt, 'project': proj,
@@ -219,6 +223,7 @@ class C17(Prop):
         os.environ['RADICAL_CONFIG_USER_DIR'] = usr
         for v in BATCH_ENV + ['RADICAL_SMT']:
             os.environ.pop(v, None)
+        os.environ['PATH'] = '%s:%s' % (os.path.dirname(sys.executable), os.environ.get('PATH', ''))
         self.rp = rp_import()
         import radical.utils as ru
         from radical.pilot.session import Session
@@ -229,20 +234,25 @@ class C17(Prop):
             def get_resource_config(self, resource, schema=None):
                 return Session.get_resource_config(self, resource, schema)      # the real method
 
+            _root = ''          # bulks with real staging put the sandboxes below a scratch root
+
+            def _url(self, path):
+                return ru.Url('file://localhost%s%s' % (self._root, path)) if self._root else ru.Url(path)
+
             def _get_endpoint_fs(self, pilot):
-                return ru.Url('/')
+                return self._url('/')
 
             def _get_resource_sandbox(self, pilot):
-                return ru.Url('/resource/sandbox')
+                return self._url('/resource/sandbox')
 
             def _get_session_sandbox(self, pilot):
-                return ru.Url('/session/sandbox/%s' % self.uid)
+                return self._url('/session/sandbox/%s' % self.uid)
 
             def _get_pilot_sandbox(self, pilot):
-                return ru.Url('/pilot/sandbox/%s' % pilot['uid'])
+                return self._url('/pilot/sandbox/%s' % pilot['uid'])
 
             def _get_client_sandbox(self):
-                return ru.Url('/client/sandbox')
+                return self._url('/client/sandbox')
 
         s = Stub()
         s._cfg = None
@@ -407,64 +417,79 @@ class C17(Prop):
         return pilot, (loaded[0] if loaded else None)
 
     def _bulk(self, case):
-        """real _start_pilot_bulk: one get_resource_config, the same rcfg object for every pilot;
-        fake job launcher, no staging, no tarball"""
+        """real _start_pilot_bulk: one get_resource_config, the same rcfg object for every pilot, real
+        _prepare_pilot (agent config really written), real _stage_in with the real local StagingHelper
+        into sandboxes below a scratch root, real tarball; recording job launcher.  At submission time the
+        launcher reads, per pilot, the agent_0.cfg that arrived in ITS sandbox."""
+        import shutil
+        import tempfile
         import threading
-        import radical.pilot.pmgr.launching.base as base
+        from radical.pilot.utils import StagingHelper
         ru = self.ru
         comp = self._component()
+        self._bulk_n = getattr(self, '_bulk_n', 0) + 1
+        root = os.path.join(os.getcwd(), 'bulk.%d' % self._bulk_n)
+        os.makedirs(root + '/tmp')
+        os.makedirs(root + '/client/sandbox')
         launched = []
 
-        class FakeLauncher(object):
+        class Launcher(object):
             def can_launch(self, rcfg, pilots):
                 return True
 
             def launch_pilots(self, rcfg, pilots):
-                launched.extend(pilots)
-        comp._launchers = {'fake': FakeLauncher()}
-        comp._stage_in = mock.Mock()
+                for pilot in pilots:
+                    try:
+                        told = ru.read_json('%s/agent_0.cfg' % ru.Url(pilot['pilot_sandbox']).path)
+                    except Exception as e:
+                        told = {'error': '%s: %s' % (type(e).__name__, e)}
+                    launched.append((pilot, told))
+        log = mock.Mock()
+        log.level, log.debug_level = 'DEBUG', 0
+        comp._log = log
+        comp._launchers = {'rec': Launcher()}
+        comp._stager = StagingHelper(log)
         comp._pilots = dict()
         comp._lock = threading.RLock()
-        comp._cfg = ru.Config(cfg={'base': os.getcwd()})
+        comp._cfg = ru.Config(cfg={'base': root + '/client/sandbox'})
         comp._prof = mock.Mock()
         comp._prof.enabled = False
+        comp._root_dir = os.path.join(REPO, 'src/radical/pilot')
         pilots = []
         for i, q in enumerate(case['pilots']):
             descr, _ = self._descr(dict(case, queue=False, **q))
-            pilots.append({'uid': 'pilot.%04d' % i, 'description': descr})
-        self._bulk_n = getattr(self, '_bulk_n', 0) + 1
-        tmp = os.path.join(os.getcwd(), 'rp_agent_tmp.%d' % self._bulk_n)
-
-        def mkdtemp(*a, **k):
-            os.makedirs(tmp, exist_ok=True)
-            return tmp
+            pilots.append({'uid': 'pilot.%04d' % i, 'type': 'pilot', 'description': descr})
         os.environ.pop('RADICAL_SMT', None)
         if case['smt'] is not None:
             os.environ['RADICAL_SMT'] = str(case['smt'])
-        fds = []
-
-        def mkstemp(*a, **k):
-            fds.append(os.open(os.devnull, os.O_RDONLY))
-            return fds[-1], 'rp.agent_cfg.verif'
+        old_tmp = tempfile.tempdir
+        tempfile.tempdir = root + '/tmp'            # mkstemp / mkdtemp / gettempdir: never /tmp
+        self.sess._root = root
         try:
-            with mock.patch.object(ru.Config, 'write', return_value=None), \
-                 mock.patch.object(base.tempfile, 'mkstemp', side_effect=mkstemp), \
-                 mock.patch.object(base.tempfile, 'mkdtemp', side_effect=mkdtemp), \
-                 mock.patch.object(base.ru, 'sh_callout', return_value=('', '', 0)), \
-                 mock.patch.object(base.ru, 'which', return_value='/usr/bin/radical-utils-env.sh'):
-                comp._start_pilot_bulk('%s.%s' % (case['site'], case['res']), case['schema'], pilots)
+            comp._start_pilot_bulk('%s.%s' % (case['site'], case['res']), case['schema'], pilots)
         finally:
+            self.sess._root = ''
+            tempfile.tempdir = old_tmp
             os.environ.pop('RADICAL_SMT', None)
-            import shutil
-            shutil.rmtree(tmp, ignore_errors=True)
-            for fd in fds:
-                try:
-                    os.close(fd)
-                except OSError:
-                    pass
-        if [p['uid'] for p in launched] != [p['uid'] for p in pilots]:
-            raise RuntimeError('launched %s of %s' % ([p['uid'] for p in launched], [p['uid'] for p in pilots]))
+            shutil.rmtree(root, ignore_errors=True)
+        if [p['uid'] for p, _ in launched] != [p['uid'] for p in pilots]:
+            raise RuntimeError('launched %s of %s' % ([p['uid'] for p, _ in launched], [p['uid'] for p in pilots]))
         return launched
+
+    @staticmethod
+    def _pilot_index(x):
+        """'pilot.0002' or a sandbox path '.../pilot.0002[/]' -> 2; anything else -> -1"""
+        m = re.search(r'pilot\.(\d{4})/?$', str(x))
+        return int(m.group(1)) if m else -1
+
+    def _told(self, pilot, told):
+        """what the agent of `pilot` reads from the agent_0.cfg in its sandbox"""
+        if 'error' in told:
+            return None
+        I = self._int
+        return {'pid': self._pilot_index(told.get('pid')), 'sandbox': self._pilot_index(told.get('pilot_sandbox')),
+                'nodes': I(told.get('nodes')), 'backup': I(told.get('backup_nodes')), 'cores': I(told.get('cores')),
+                'gpus': I(told.get('gpus')), 'cpn': I(told.get('cores_per_node')), 'gpn': I(told.get('gpus_per_node'))}
 
     def _figures(self, pilot):
         jd, ac = pilot['jd_dict'], pilot['cfg']
@@ -553,7 +578,10 @@ class C17(Prop):
             except Exception as e:
                 return {'exc': exc_name(e), 'detail': '%s: %s' % (type(e).__name__, str(e)[:200])}
             try:
-                return {'pilots': [self._figures(p) for p in launched]}
+                return {'pilots': [self._figures(p) for p, _ in launched],
+                        'told': [self._told(p, t) for p, t in launched],
+                        'told_raw': [{k: t.get(k) for k in ('pid', 'pilot_sandbox', 'error') if k in t}
+                                     for _, t in launched]}
             except NonInteger as e:
                 return {'exc': 'OtherError', 'detail': 'non-integer figure %s' % e}
         if k == 'size':
@@ -604,6 +632,14 @@ class C17(Prop):
                     'node_count', 'total_cpu', 'total_gpu', 'pph', 'smt', 'a_nodes', 'a_backup', 'a_cores',
                     'a_gpus', 'a_cpn', 'a_gpn', 'p_cpu', 'p_gpu')))
 
+    @staticmethod
+    def _told_lit(t):
+        if t is None:
+            return 'None'
+        return ('(Some {| t_pid := %s; t_sandbox := %s; t_nodes := %s; t_backup := %s; t_cores := %s; t_gpus := %s; '
+                't_cpn := %s; t_gpn := %s |})' % tuple(L.Z(t[f]) for f in (
+                    'pid', 'sandbox', 'nodes', 'backup', 'cores', 'gpus', 'cpn', 'gpn')))
+
     def _bulk_reqs(self, case):
         return L.lst([self._req(dict(case, queue=False, **q)) for q in case['pilots']])
 
@@ -612,7 +648,8 @@ class C17(Prop):
         if k == 'bulk':
             return '(c17_bulk_row %s %s %s %s %s)' % (
                 S(case['site']), S(case['res']), schema_lit(case['schema']), self._bulk_reqs(case),
-                res(obs, lambda o: L.lst([self._sized(p) for p in o['pilots']])))
+                res(obs, lambda o: L.lst([L.pair(self._sized(p), self._told_lit(t))
+                                          for p, t in zip(o['pilots'], o['told'])])))
         if k == 'list':
             return '(c17_list_row %s)' % L.lst(['(%s, %s, %s)' % (S(a), S(b), strs(c)) for a, b, c in obs['configs']])
         if k == 'factory':
@@ -648,7 +685,7 @@ class C17(Prop):
         if k == 'factory':
             return None
         if k == 'bulk':
-            return 'launch_bulk T %s %s %s %s' % (S(case['site']), S(case['res']), schema_lit(case['schema']),
+            return 'launch_bulk_staged T %s %s %s %s' % (S(case['site']), S(case['res']), schema_lit(case['schema']),
                                                   self._bulk_reqs(case))
         if k == 'resolve':
             return 'resolve T %s %s %s %s' % (S(case['site']), S(case['res']), schema_lit(case['schema']),
@@ -687,6 +724,8 @@ class C17(Prop):
                 plat = 'further platforms'
             return '%s:Session.get_resource_config:%s' % (clause, plat)
         if k == 'bulk':
+            if clause in ('staged_cfg_is_own', 'agent_told_what_job_requests'):
+                return '%s:PMGRLaunchingComponent._start_pilot_bulk:agent_0.cfg staged after all pilots are prepared' % clause
             return '%s:PMGRLaunchingComponent._start_pilot_bulk:pilots of one bulk share the resource config' % clause
         if k == 'size':
             # a sizing defect belongs to the code path, not to the platform
@@ -710,7 +749,12 @@ class C17(Prop):
         C17._shrink_root += 1
         if C17._shrink_calls > self.shrink_total or C17._shrink_root > self.shrink_steps:
             return []
-        out = self._dedup(case, self._shrink(case))[:40]
+        out = self._dedup(case, self._shrink(case))
+        if case['kind'] == 'bulk':            # do not shrink a sized pilot into an empty request
+            sized_ = lambda ps: all(p['nodes'] > 0 or p['cores'] > 0 for p in ps)
+            if sized_(case['pilots']):
+                out = [c for c in out if sized_(c['pilots'])]
+        out = out[:40]
         C17._shrink_last = frozenset(json.dumps(c, sort_keys=True) for c in out)
         return out
 
@@ -732,6 +776,7 @@ class C17(Prop):
             # two identical pilots, canonical small ones first
             for q in (dict(zero, nodes=1), dict(zero, cores=1)):
                 yield dict(case, pilots=[dict(q), dict(q)], smt=None)
+            yield dict(case, pilots=[dict(zero, nodes=2), dict(zero, nodes=1)], smt=None)
             for i in range(len(ps)):
                 yield dict(case, pilots=[dict(ps[i]), dict(ps[i])])
             if len(ps) > 2:
